@@ -805,6 +805,17 @@ pub fn run(args: &Args) {
 				run_in_world(&rt, &mut out, &mut id, &w, "C02", "S", d, "1:0,0,1,0;31:5,5,5,5;3:1,1,0,0");
 				run_in_world(&rt, &mut out, &mut id, &w, "C02", "P", d, "");
 			}
+			// bulk requests on the image sources: boxes just above 1024 tiles (33x32, 32x33) and, thorough, above 4096, alone
+			// and below a filter (a bulk path that switches encoder settings by box size changes bytes, not coordinates; seed C02-13)
+			for d in ["D2", "D2,Z2:9"] {
+				out.count("C_debug_image_bulk_boxes");
+				run_in_world(&rt, &mut out, &mut id, &w, "C02", "S", d, if args.thorough() { "6:0,0,32,31;7:3,5,34,37;7:0,0,64,63" } else { "6:0,0,32,31" });
+			}
+			if args.thorough() {
+				for d in ["D2f", "D3", "D4"] {
+					run_in_world(&rt, &mut out, &mut id, &w, "C02", "S", d, "6:0,0,32,31;7:3,5,34,37");
+				}
+			}
 		} else {
 			out.notes.push(format!("part C world unusable: {:?}", w.open_errors));
 		}
